@@ -48,7 +48,7 @@ pub fn collect(tier: &str, caps: &Caps, rep: &Report) -> Vec<In> {
     {
         // flattening cases one deviation deeper than the shared corpus has them (two ghost-only nested structs need five
         // non-default choices - seed C19-02)
-        let fo = crate::sem_flat::FlatOpts { max_members: 3, max_ghosts: 2, max_depth: 2, positional: false };
+        let fo = crate::sem_flat::FlatOpts { max_members: 3, max_ghosts: 2, max_depth: 2, positional: false, ..crate::sem_flat::FlatOpts::DEF };
         let b = if tier == "quick" { Some(5) } else { Some(7) };
         let st = explore(|ctx| crate::sem_flat::gen_child(ctx, &fo), b, caps, |ch, c| push("sem-flat-deep", ch, c.tags.clone(), c.item("S", true).render()));
         rep.add_stats("sem-flat-deep", &format!("dev({})", b.unwrap()), &st);
